@@ -291,6 +291,7 @@ fn unit(case: &Value) -> Value {
         "is_on" => Value::Bool(h::is_on(arg)),
         "is_directive" => Value::Bool(h::is_directive_name(arg)),
         "known_tag" => Value::Bool(h::known_tag(arg)),
+        "regex_valid" => Value::Bool(regex::Regex::new(arg).is_ok()),
         "options" => match serde_json::from_str::<Options>(arg) {
             Ok(o) => json!({
                 "transformOn": o.transform_on, "optimize": o.optimize, "mergeProps": o.merge_props,
